@@ -34,3 +34,211 @@ Theorem tucan_layout :
       SameMol h m m2 /\ ser_ready m2 /\ Layout.layout_ok m2 (ast_of m2 syms).
 Proof. exact (@RoundTrip2.tucan_layout). Qed.
 Print Assumptions tucan_layout.
+
+(* ======================================================================================== *)
+(* The quantifier closed: "for all molecules the readers or the parser can produce".        *)
+(* The two theorems above take the graph m with wfg m, simple m, pos_attrs m as hypotheses.  *)
+(* Below, the statements start from a molfile TEXT (V2000.read_molfile: the entry point for  *)
+(* both molfile versions) or from a TUCAN STRING (ref_parse); proofs in Proofs/EndToEnd.v.   *)
+(* ======================================================================================== *)
+From Coq Require Import String.
+Require Import Molfile CanonView TotalProofs.
+Require V2000 V3000Render V2000Render NonIdentity Norm RefCanon EndToEnd.
+
+(* 1. What holds for the graph of EVERY text the entry point reads (conformant or not): distinct node
+   names, every unordered pair bonded at most once, no explicit zero mass / radical, every atomic
+   number has an element symbol (it is the table entry of the symbol kept on the atom). *)
+Theorem C05_read_graph_props : forall (s : text) (g : mol rpay Z),
+  V2000.read_molfile s = ok g ->
+  NoDup (labels g) /\ simple g /\ (forall x, In x (atoms g) -> nozero x) /\ known_elements g.
+Proof. exact EndToEnd.read_graph_props. Qed.
+Print Assumptions C05_read_graph_props.
+
+Theorem C05_read_molfile_symbols : forall (s : text) (g : mol rpay Z),
+  V2000.read_molfile s = ok g ->
+  forall x, In x (atoms g) -> z_of_symbol (p_sym (pay x)) = Some (zn x) /\ symbol_of (zn x) = Some (p_sym (pay x)).
+Proof. exact EndToEnd.read_molfile_symbols. Qed.
+Print Assumptions C05_read_molfile_symbols.
+
+(* What does NOT hold for arbitrary text, with accepted texts as witnesses (EndToEnd.ex_selfbond_text:
+   bond line "M  V30 1 1 1 1"; EndToEnd.ex_negative_text: "MASS=-3", "RAD=-1"):
+   (a) a bond from an atom to itself is read and kept; the emitted string "CO/(1-1)(1-2)" is rejected
+       by the reference reader and no layout statement holds for it;
+   (b) a negative mass / radical is read and kept; the emitted string "CO/(1-2)/(1:mass=-3)(2:rad=-1)"
+       is not a sentence.
+   Hence the two hypotheses "no self-bond" and "positive values" of theorem 2. *)
+Theorem C05_selfbond_is_read :
+  EndToEnd.graph_view (V2000.read_molfile EndToEnd.ex_selfbond_text)
+  = Some ([(0, 6, None, None); (1, 8, None, None)]%N, [(0%N, 0%N, 1%Z); (0%N, 1%N, 1%Z)])
+  /\ EndToEnd.run_text EndToEnd.ex_selfbond_text = Some (t "CO/(1-1)(1-2)")
+  /\ ref_parse (t "CO/(1-1)(1-2)") = inl ESelfLoop
+  /\ forall ts (m2 : mol rpay Z) syms,
+       lex_text (t "CO/(1-1)(1-2)") = Some ts -> parse_tokens ts = Some (ast_of m2 syms) ->
+       ~ Layout.layout_ok m2 (ast_of m2 syms).
+Proof.
+  exact (conj EndToEnd.ex_selfbond_read (conj (proj1 EndToEnd.ex_selfbond_run)
+        (conj (proj2 (proj2 EndToEnd.ex_selfbond_run)) EndToEnd.ex_selfbond_no_layout))).
+Qed.
+Print Assumptions C05_selfbond_is_read.
+
+Theorem C05_negative_value_is_read :
+  EndToEnd.graph_view (V2000.read_molfile EndToEnd.ex_negative_text)
+  = Some ([(0%N, 6%N, Some (-3)%Z, None); (1%N, 8%N, None, Some (-1)%Z)], [(0%N, 1%N, 1%Z)])
+  /\ EndToEnd.run_text EndToEnd.ex_negative_text = Some (t "CO/(1-2)/(1:mass=-3)(2:rad=-1)")
+  /\ forall ts a, lex_text (t "CO/(1-2)/(1:mass=-3)(2:rad=-1)") = Some ts -> ~ ParseProofs.Sentence ts a.
+Proof. exact (conj EndToEnd.ex_negative_read (conj EndToEnd.ex_negative_run EndToEnd.ex_negative_no_sentence)). Qed.
+Print Assumptions C05_negative_value_is_read.
+
+(* 2. C05 for the readers.  For every oracle satisfying H1 and EVERY text s that is read into a graph
+   with at least one atom, no bond from an atom to itself and no non-positive stored mass / radical:
+   the pipeline returns a string, it is the spelling of a sentence of the grammar, and it obeys the
+   canonical layout. *)
+Theorem C05_molfile_text_in_grammar :
+  forall canon, H1 canon ->
+  forall (s : text) (g : mol rpay Z),
+    V2000.read_molfile s = ok g -> atoms g <> nil ->
+    (forall b, In b (bonds g) -> fst (ends b) <> snd (ends b)) -> pos_attrs g ->
+    exists c ts a, tucan canon g = Some c /\ lex_text c = Some ts /\ ParseProofs.Sentence ts a /\ print_tokens ts = c.
+Proof. exact EndToEnd.molfile_text_in_grammar. Qed.
+Print Assumptions C05_molfile_text_in_grammar.
+
+Theorem C05_molfile_text_layout :
+  forall canon, H1 canon ->
+  forall (s : text) (g : mol rpay Z),
+    V2000.read_molfile s = ok g -> atoms g <> nil ->
+    (forall b, In b (bonds g) -> fst (ends b) <> snd (ends b)) -> pos_attrs g ->
+    exists c ts (m2 : mol rpay Z) syms h,
+      tucan canon g = Some c /\ print_tokens ts = c /\ lex_text c = Some ts /\ parse_tokens ts = Some (ast_of m2 syms) /\
+      SameMol h g m2 /\ ser_ready m2 /\ Layout.layout_ok m2 (ast_of m2 syms).
+Proof. exact EndToEnd.molfile_text_layout. Qed.
+Print Assumptions C05_molfile_text_layout.
+
+(* "positive" can be replaced by "not negative": the readers never store a zero *)
+Theorem C05_molfile_text_in_grammar_nonneg :
+  forall canon, H1 canon ->
+  forall (s : text) (g : mol rpay Z),
+    V2000.read_molfile s = ok g -> atoms g <> nil ->
+    (forall b, In b (bonds g) -> fst (ends b) <> snd (ends b)) ->
+    (forall x, In x (atoms g) -> (forall v, mass x = Some v -> (0 <= v)%Z) /\ (forall v, rad x = Some v -> (0 <= v)%Z)) ->
+    exists c ts a, tucan canon g = Some c /\ lex_text c = Some ts /\ ParseProofs.Sentence ts a /\ print_tokens ts = c.
+Proof. exact EndToEnd.molfile_text_in_grammar_nonneg. Qed.
+Print Assumptions C05_molfile_text_in_grammar_nonneg.
+
+(* 3. The hypotheses discharged for spec-conformant files.
+   V3000: M any well-formed abstract molecule (V3000Render.okM: known element symbols or D / T,
+   coordinate tokens, bond lines between atom entries, every ordered pair stated once) in which no bond
+   line joins an atom to itself, with at least one atom entry and no negative stated mass / radical;
+   ch any admissible rendering choices (okch, okch_text: header lines, index values, blank runs,
+   continuation points, order and repetition of CHG= / RAD= / MASS=, explicit defaults, foreign
+   keywords, trailing blocks); eol: CR LF or LF line by line.  The text is read, the string exists, it
+   is a sentence, and it obeys the layout. *)
+Theorem C05_v3000_file_in_grammar :
+  forall canon, H1 canon ->
+  forall (M : V3000Render.molM) (ch : V3000Render.choices) (eol : nat -> bool),
+    V3000Render.okM M ->
+    (forall u, ~ In (u, u) (flat_map V3000Render.bond_keys (V3000Render.m_bonds M))) ->
+    (exists a, In (Some a) (V3000Render.m_entries M)) ->
+    (forall a, In (Some a) (V3000Render.m_entries M) -> (0 <= V3000Render.a_mass a)%Z /\ (0 <= V3000Render.a_rad a)%Z) ->
+    V3000Render.okch M ch -> V3000Render.okch_text ch ->
+    exists g c ts a,
+      V2000.read_molfile (V3000Render.file_text eol 0 (V3000Render.render3000 M ch)) = ok g /\
+      tucan canon g = Some c /\ lex_text c = Some ts /\ ParseProofs.Sentence ts a /\ print_tokens ts = c.
+Proof. exact EndToEnd.v3000_file_in_grammar. Qed.
+Print Assumptions C05_v3000_file_in_grammar.
+
+Theorem C05_v3000_file_layout :
+  forall canon, H1 canon ->
+  forall (M : V3000Render.molM) (ch : V3000Render.choices) (eol : nat -> bool),
+    V3000Render.okM M ->
+    (forall u, ~ In (u, u) (flat_map V3000Render.bond_keys (V3000Render.m_bonds M))) ->
+    (exists a, In (Some a) (V3000Render.m_entries M)) ->
+    (forall a, In (Some a) (V3000Render.m_entries M) -> (0 <= V3000Render.a_mass a)%Z /\ (0 <= V3000Render.a_rad a)%Z) ->
+    V3000Render.okch M ch -> V3000Render.okch_text ch ->
+    exists g c ts (m2 : mol rpay Z) syms h,
+      V2000.read_molfile (V3000Render.file_text eol 0 (V3000Render.render3000 M ch)) = ok g /\
+      tucan canon g = Some c /\ print_tokens ts = c /\ lex_text c = Some ts /\ parse_tokens ts = Some (ast_of m2 syms) /\
+      SameMol h g m2 /\ ser_ready m2 /\ Layout.layout_ok m2 (ast_of m2 syms).
+Proof. exact EndToEnd.v3000_file_layout. Qed.
+Print Assumptions C05_v3000_file_layout.
+
+(* V2000: M any well-formed abstract molecule and ch any admissible rendering (NonIdentity.okfile2000:
+   okM2000, okch2000, a counts line ending in " V2000", no line break inside a line), no bond line
+   joining an atom to itself, at least one atom, no negative stated mass / radical. *)
+Theorem C05_v2000_file_in_grammar :
+  forall canon, H1 canon ->
+  forall (M : V2000Render.mol2) (ch : V2000Render.choices) (eol : nat -> bool),
+    NonIdentity.okfile2000 M ch ->
+    (forall u, ~ In (u, u) (map fst (V2000Render.m_bonds M))) ->
+    V2000Render.m_atoms M <> nil ->
+    (forall a, In a (V2000Render.m_atoms M) -> (0 <= V2000Render.a_mass a)%Z /\ (0 <= V2000Render.a_rad a)%Z) ->
+    exists g c ts a,
+      V2000.read_molfile (V3000Render.file_text eol 0 (V2000Render.render2000 M ch)) = ok g /\
+      tucan canon g = Some c /\ lex_text c = Some ts /\ ParseProofs.Sentence ts a /\ print_tokens ts = c.
+Proof. exact EndToEnd.v2000_file_in_grammar. Qed.
+Print Assumptions C05_v2000_file_in_grammar.
+
+Theorem C05_v2000_file_layout :
+  forall canon, H1 canon ->
+  forall (M : V2000Render.mol2) (ch : V2000Render.choices) (eol : nat -> bool),
+    NonIdentity.okfile2000 M ch ->
+    (forall u, ~ In (u, u) (map fst (V2000Render.m_bonds M))) ->
+    V2000Render.m_atoms M <> nil ->
+    (forall a, In a (V2000Render.m_atoms M) -> (0 <= V2000Render.a_mass a)%Z /\ (0 <= V2000Render.a_rad a)%Z) ->
+    exists g c ts (m2 : mol rpay Z) syms h,
+      V2000.read_molfile (V3000Render.file_text eol 0 (V2000Render.render2000 M ch)) = ok g /\
+      tucan canon g = Some c /\ print_tokens ts = c /\ lex_text c = Some ts /\ parse_tokens ts = Some (ast_of m2 syms) /\
+      SameMol h g m2 /\ ser_ready m2 /\ Layout.layout_ok m2 (ast_of m2 syms).
+Proof. exact EndToEnd.v2000_file_layout. Qed.
+Print Assumptions C05_v2000_file_layout.
+
+(* 4. C05 for the parser.  Every string the reference reader accepts, with at least one atom ("/" is
+   the only accepted string without), normalizes (parse, canonicalize, serialize) to a string that is a
+   sentence and obeys the layout.  No hypothesis about the graph is left. *)
+Theorem C05_tucan_string_in_grammar :
+  forall canon, H1 canon ->
+  forall (s : text) (g : mol unit unit),
+    ref_parse s = inr g -> atoms g <> nil ->
+    exists c ts a, Norm.norm canon s = Some c /\ lex_text c = Some ts /\ ParseProofs.Sentence ts a /\ print_tokens ts = c.
+Proof. exact EndToEnd.tucan_string_in_grammar. Qed.
+Print Assumptions C05_tucan_string_in_grammar.
+
+Theorem C05_tucan_string_layout :
+  forall canon, H1 canon ->
+  forall (s : text) (g : mol unit unit),
+    ref_parse s = inr g -> atoms g <> nil ->
+    exists c ts (m2 : mol unit unit) syms h,
+      Norm.norm canon s = Some c /\ print_tokens ts = c /\ lex_text c = Some ts /\ parse_tokens ts = Some (ast_of m2 syms) /\
+      SameMol h g m2 /\ ser_ready m2 /\ Layout.layout_ok m2 (ast_of m2 syms).
+Proof. exact EndToEnd.tucan_string_layout. Qed.
+Print Assumptions C05_tucan_string_layout.
+
+(* 5. Non-vacuity with the reference oracle (RefCanon.ref_canon satisfies H1): the formate file of
+   NonIdentity.Example (V3000, continuation lines, explicit defaults, foreign keywords, CR LF) meets
+   every hypothesis of theorem 3; its string is computed, and the theorem gives the sentence. *)
+Theorem C05_formate_file_sentence : exists a,
+  tucan RefCanon.ref_canon (V3000Render.graph_of NonIdentity.Example.formA) = Some (t "CHO2/(1-2)(2-3)(2-4)/(2:mass=13)") /\
+  lex_text (t "CHO2/(1-2)(2-3)(2-4)/(2:mass=13)") = Some EndToEnd.Example.formate_tokens /\
+  ParseProofs.Sentence EndToEnd.Example.formate_tokens a /\
+  print_tokens EndToEnd.Example.formate_tokens = t "CHO2/(1-2)(2-3)(2-4)/(2:mass=13)".
+Proof. exact EndToEnd.Example.formate_v3000_sentence. Qed.
+Print Assumptions C05_formate_file_sentence.
+
+Theorem C05_formate_files_computed :
+  EndToEnd.run_text (V3000Render.file_text NonIdentity.Example.crlf 0
+                       (V3000Render.render3000 NonIdentity.Example.formA NonIdentity.Example.chA))
+  = Some (t "CHO2/(1-2)(2-3)(2-4)/(2:mass=13)") /\
+  EndToEnd.run_text (V3000Render.file_text NonIdentity.Example.mixed 0
+                       (V2000Render.render2000 NonIdentity.Example.form2 NonIdentity.Example.ch2))
+  = Some (t "CHO2/(1-2)(2-3)(2-4)/(2:mass=13)").
+Proof. exact EndToEnd.Example.formate_files_computed. Qed.
+Print Assumptions C05_formate_files_computed.
+
+(* a non-canonical spelling (6 atoms) normalizes to a sentence *)
+Theorem C05_string_example : exists ts a,
+  Norm.norm RefCanon.ref_canon (t "CH4O/(6-5)(1-6)(5-3)(2-5)(4-5)(2-5)/(5:mass=13)(1:rad=1)(1:mass=2)")
+  = Some (t "CH4O/(1-5)(2-5)(3-5)(4-6)(5-6)/(4:mass=2,rad=1)(5:mass=13)") /\
+  lex_text (t "CH4O/(1-5)(2-5)(3-5)(4-6)(5-6)/(4:mass=2,rad=1)(5:mass=13)") = Some ts /\
+  ParseProofs.Sentence ts a /\
+  print_tokens ts = t "CH4O/(1-5)(2-5)(3-5)(4-6)(5-6)/(4:mass=2,rad=1)(5:mass=13)".
+Proof. exact EndToEnd.Example.string_in_grammar. Qed.
+Print Assumptions C05_string_example.
